@@ -47,7 +47,7 @@ NJOBS = 48
 
 
 def limit_full(tier):
-    return 10_000 if tier == 'thorough' else 400
+    return 10_000 if tier == 'thorough' else 130
 
 
 def secrets_of(name):
@@ -80,9 +80,9 @@ def coef_vectors(name, t, tier):
     return vecs, 'alphabet'
 
 
-def x_rs_of(name, m):
+def x_rs_of(name, m, tier='thorough'):
     q = R.order(name)
-    if name in SMALL:
+    if name in SMALL and (tier == 'thorough' or q <= 16):
         return list(range(q))
     return sorted(set(range(min(q, m + 3))) | {q - 2, q - 1})
 
@@ -100,17 +100,19 @@ def pairs_of(name, t, tier):
     return [(s, c) for c in vecs for s in secrets_of(name)], mode
 
 
-def weight(name, t, m, npairs):
+def weight(name, t, m, npairs, tier):
     subs = R.subsets_at_least(m, t + 1)
-    return npairs * (3 * m * (t + 1) + sum(len(S) for S in subs) * len(x_rs_of(name, m)) * 2.2)
+    p, modcode = R.FIELD_SPECS[name]
+    slow = 0.6 if modcode is None else 1.0 if p == 2 else 3.0      # generic gfpx polynomials are list-based
+    return slow * npairs * (3 * m * (t + 1) + sum(len(S) for S in subs) * len(x_rs_of(name, m, tier)) * 2.2)
 
 
 def jobs(tier, seed):
     units = []
     for name, t, m in configs(tier):
         pairs, _ = pairs_of(name, t, tier)
-        w = weight(name, t, m, len(pairs))
-        K = max(1, min(64, int(w // 6e6) + 1))
+        w = weight(name, t, m, len(pairs), tier)
+        K = max(1, min(64, int(w // 1.5e6) + 1))
         for k in range(K):
             units.append((w / K, (name, t, m, k, K)))
     units.sort(key=lambda u: (-u[0], u[1]))
@@ -397,7 +399,7 @@ def run_job(job):
             pairs, mode = pairs_of(name, t, job['tier'])
             mine = pairs[k::K]
             subsets = R.subsets_at_least(m, t + 1)
-            x_rs = x_rs_of(name, m)
+            x_rs = x_rs_of(name, m, job['tier'])
             for batch in batches(mine, first=True):
                 check_batch(part, ctx, seam, batch, subsets, x_rs, np=np)
             if k == 0:
